@@ -8,6 +8,8 @@ Per run: pre_build writes GenCorpus.v (what the real package writes for a bounda
 coq-run/C14/Tie.v decides inside Coq which quoting rule the source implements, Properties.v states the
 theorems (the full one holds iff the source has the repaired rule), and the correspondence lets Coq compare
 text written by the real package with the model and parse it back with the independent parser.
+Comments are supplied at every entry point with lines far beyond the CIF 1.1 line limit (2040..2060, 5000, 50000
+characters) and with thousands of lines: the model writes them unwrapped (comments_do_not_leak holds for every length).
 """
 import json
 import os
@@ -32,7 +34,8 @@ TRUSTED = [
     'calibration loop) and the decimal reading of number tokens',
     'oracles: str(float)/str(int)/compact value(su) formatting of scipp, datetime.isoformat (tokens taken from the parsed text, '
     'contract: characters 0-9 + - . e E ( ) non-empty), iteration order of the Python set of schemas',
-    'tools/harness/c14_impl.py + props/C14.py (construction of the documents, serialisation of strings/rationals into Coq terms)',
+    'tools/harness/c14_impl.py + props/C14.py (construction of the documents, serialisation of strings/rationals into Coq terms; '
+    'strings above 1500 characters as `++` of literals and `rep n piece` runs, checked in Python to concatenate to the string)',
     'scipp: sc.stddevs = sqrt(variances) is checked numerically (token^2 = variance), not proved',
 ]
 ASSUMPTIONS = [
@@ -73,11 +76,47 @@ def is_plain(s):
     return all(ord(c) in PRINTABLE for c in s)
 
 
-def cps(s):
-    """Python str -> Coq `list N` of code points"""
+LIT_CHUNK = 1500          # longest string literal handed to coqc in one piece (longer ones overflow its stack)
+_PERIODIC = re.compile(r'(.{1,40}?)\1{4,}', re.S)
+
+
+def _segments(s):
+    """a long string as segments ('lit', text) / ('rep', count, piece): periodic runs (long comment lines are mostly
+    that) are written as `rep count piece`, everything else as literals of at most LIT_CHUNK characters.
+    Pure serialisation: the concatenation of the segments is s (asserted)."""
+    out, pos = [], 0
+    for m in _PERIODIC.finditer(s):
+        if m.end() - m.start() < 240:
+            continue
+        if m.start() > pos:
+            out.append(('lit', s[pos:m.start()]))
+        out.append(('rep', (m.end() - m.start()) // len(m.group(1)), m.group(1)))
+        pos = m.end()
+    if pos < len(s):
+        out.append(('lit', s[pos:]))
+    res = []
+    for seg in out:
+        if seg[0] == 'lit':
+            res += [('lit', seg[1][i:i + LIT_CHUNK]) for i in range(0, len(seg[1]), LIT_CHUNK)]
+        else:
+            res.append(seg)
+    assert ''.join(x[1] if x[0] == 'lit' else x[1] * x[2] for x in res) == s
+    return res
+
+
+def _long(s, one):
+    return '(' + ' ++ '.join(one(x[1]) if x[0] == 'lit' else f'rep {x[1]}%N {one(x[2])}' for x in _segments(s)) + ')'
+
+
+def _cps1(s):
     if is_plain(s):
         return f'(A {coq_lit(s)})'
     return '[' + '; '.join(str(ord(c)) for c in s) + ']%N'
+
+
+def cps(s):
+    """Python str -> Coq `list N` of code points"""
+    return _cps1(s) if len(s) <= LIT_CHUNK else _long(s, _cps1)
 
 
 def cstr(s):
@@ -86,10 +125,14 @@ def cstr(s):
     return f'(S {coq_lit(s)})'
 
 
-def ctext(t):
+def _ctext1(t):
     if is_plain(t):
         return f'(S {coq_lit(t)})'
     return '(map ascii_of_nat [' + '; '.join(str(b) for b in t.encode('utf-8', 'surrogatepass')) + ']%nat)'
+
+
+def ctext(t):
+    return _ctext1(t) if len(t) <= LIT_CHUNK else _long(t, _ctext1)
 
 
 def cq(fr):
@@ -228,7 +271,9 @@ def header(res, tie=True):
     return ('From Coq Require Import String Ascii List Bool Arith NArith ZArith QArith.\n'
             'From Verif.Sem Require Import Corr.\n'
             'From Verif.C14 Require Import Cif11 Writer ProofsLex ProofsDoc ProofsRules ProofsMisc Check.\n'
-            'Import ListNotations.\nOpen Scope string_scope.\nOpen Scope list_scope.\n' + tie_txt +
+            'Import ListNotations.\nOpen Scope string_scope.\nOpen Scope list_scope.\n'
+            '(* serialisation of long strings (props/C14.py:_segments): count copies of a piece *)\n'
+            'Definition rep {X : Type} (n : N) (l : list X) : list X := N.iter n (fun acc => l ++ acc) [].\n' + tie_txt +
             f'Definition core : schema := ({cstr(core[0])}, {cstr(core[1])}, {cstr(core[2])}).\n'
             f'Definition pd : schema := ({cstr(pd[0])}, {cstr(pd[1])}, {cstr(pd[2])}).\n'
             f'Definition version : list N := {cps(res["version"])}.\n'
@@ -336,6 +381,236 @@ def gen_comment(rng, ascii_only=False):
     if ascii_only:
         c = ''.join(ch if ord(ch) < 127 else 'u' for ch in c)
     return c
+
+
+# ---- long comments: lines far beyond any line-length limit a writer may know of (80, 132, 1024, 2048 = CIF 1.1, 4096),
+# and comments of very many lines.  The property does not bound the length of a comment; whatever the writer does with
+# a long line (it writes it as it is today), every physical line of it must stay a comment.
+LONG_NOBLANK = ['x', 'ab', 'abc123', 'provenance/', '0123456789', '_tag', "it's", '#', ';', 'loop_', 'a.b-c']
+LONG_WORDS = ['processed by step 17; ', 'a b ', 'normalised to monitor 2, ', 'x ', ' ', '\t', 'a\tb ',
+              'data_evil _x 1 loop_ _a 1 ', "_tag 'v' ", 'mantid 6.9 -> scipp 24.6 ', '; text ', '# ']
+LONG_NONASCII = ['\xb5s ', 'caf\xe9', '\u4e2d\u6587 ']
+LONG_WIDTHS = [72, 79, 80, 81, 100, 120, 132, 133, 255, 256, 257, 1000, 1023, 1024, 1025, 4095, 4096, 4097]
+CIF_WIDTHS = list(range(2040, 2061))
+LONG_STYLES = ['noblank', 'words', 'mixed', 'random']
+COMMENT_SHAPES = ['single', 'first', 'middle', 'last', 'last-trailing-nl', 'two-long']
+WORD_ALPHABET = 'abcdefghijklmnopqrstuvwxyzABCXYZ0123456789_#$;.,:/-+()[]\'"'
+
+
+def long_line(rng, n, style, ascii_only=True):
+    """one comment line (no line break) of exactly n characters"""
+    if style == 'noblank':
+        p = rng.choice(LONG_NOBLANK)
+        return (p * (n // len(p) + 1))[:n]
+    if style == 'words':
+        p = rng.choice(LONG_WORDS + ([] if ascii_only else LONG_NONASCII))
+        return (p * (n // len(p) + 1))[:n]
+    if style == 'mixed':          # several stretches, with and without blanks
+        out = ''
+        while len(out) < n:
+            p = rng.choice(LONG_NOBLANK + LONG_WORDS + ([] if ascii_only else LONG_NONASCII))
+            k = min(n - len(out), rng.choice([n // 7 + 1, n // 3 + 1, 300, 2046, 2047, 2048]))
+            out += (p * (k // len(p) + 1))[:k]
+        return out[:n]
+    out = []                      # 'random': words of 1..12 characters, single blanks, not periodic
+    total = 0
+    while total < n:
+        w = ''.join(rng.choice(WORD_ALPHABET) for _ in range(rng.randint(1, 12)))
+        out.append(w)
+        total += len(w) + 1
+    return ' '.join(out)[:n]
+
+
+def long_comment(rng, n, style, shape='single', ascii_only=True):
+    """a comment with (at least) one line of n characters, at the given place among short lines"""
+    ln = long_line(rng, n, style, ascii_only)
+    short = ['a short line', 'x', '', ' indented', '_tag 1', 'loop_']
+    if shape == 'single':
+        return ln
+    if shape == 'first':
+        return ln + '\n' + rng.choice(short) + '\n' + rng.choice(short)
+    if shape == 'middle':
+        return rng.choice(short) + '\n' + ln + '\n' + (rng.choice(short) or 'end')
+    if shape == 'last':
+        return (rng.choice(short) or 'x') + '\n' + ln
+    if shape == 'last-trailing-nl':
+        return rng.choice(short) + '\n' + ln + '\n'
+    return ln + '\n' + long_line(rng, n + rng.choice([-1, 0, 1, 7]), rng.choice(LONG_STYLES[:3]), ascii_only)
+
+
+def many_line_comment(rng, k, numbered):
+    """k short lines; numbered lines are all distinct"""
+    if numbered:
+        return '\n'.join(f'{i}: {rng.choice(["reduced", "_x 1", "loop_", "", "normalised by monitor"])}' for i in range(k))
+    p = rng.choice(['same line', '', '_x 1', 'loop_', ' ', 'x'])
+    return '\n'.join([p] * k) + rng.choice(['', '\n'])
+
+
+def gen_long_comment(rng, ascii_only=True, cheap=True):
+    """random member of the class: the line length concentrated at the CIF 1.1 limit and at other limits a writer may
+    know of, else log-uniform up to 50000; sometimes very many lines.  cheap: no 'random' style above 6000 characters
+    (their text cannot be written compactly for Coq)"""
+    r = rng.random()
+    if r < 0.12:
+        k = rng.choice([60, 100, 257, 1000, 3000])
+        return many_line_comment(rng, k, numbered=k <= 257 and rng.random() < 0.5)
+    if r < 0.50:
+        n = rng.choice(CIF_WIDTHS)
+    elif r < 0.62:
+        n = rng.choice(LONG_WIDTHS) + rng.choice([-2, -1, 0, 0, 1, 2, 3])
+    elif r < 0.77:
+        n = 5000
+    elif r < 0.84:
+        n = 50000
+    else:
+        n = int(loguniform(rng, 60, 50000))
+    style = rng.choice(LONG_STYLES)
+    if style == 'random' and cheap and n > 6000:
+        style = 'mixed'
+    return long_comment(rng, n, style, rng.choice(COMMENT_SHAPES), ascii_only)
+
+
+def comment_slots(doc):
+    """every place of a document where a comment can be supplied: (entry point, container, key)"""
+    if doc['kind'] == 'low':
+        yield 'save_cif(blocks, comment=)', doc, 'comment'
+        for b in doc['blocks']:
+            yield 'Block(comment=)', b, 'comment'
+            for it in b['items']:
+                yield ('Chunk(comment=)' if it['type'] == 'chunk' else 'Loop(comment=)'), it, 'comment'
+        return
+    yield 'CIF(comment=)', doc, 'comment'
+    calls = []
+    if doc['kind'] == 'builder':
+        yield 'save_cif(builder, comment=)', doc, 'override_comment'
+        calls = doc['calls']
+    else:
+        for op in doc['ops']:
+            if op['op'] == 'derive':
+                calls.append(op['call'])
+            elif op['op'] == 'save' and op.get('via') == 'override':
+                yield 'save_cif(builder, comment=)', op, 'comment'
+            elif op['op'] == 'set_comment':
+                yield 'CIF.comment = ', op, 'comment'
+    for c in calls:
+        if c['c'] in ('beamline', 'powder', 'calib'):
+            yield {'beamline': 'with_beamline(comment=)', 'powder': 'with_reduced_powder_data(comment=)',
+                   'calib': 'with_powder_calibration(comment=)'}[c['c']], c, 'comment'
+
+
+def inject_long_comments(docs, rng, rate):
+    """second pass over generated documents (own random stream, so the documents themselves do not depend on it):
+    with probability `rate` one randomly chosen comment slot of a document receives a long comment"""
+    hit = []
+    for i, d in enumerate(docs):
+        if rng.random() >= rate:
+            continue
+        slots = list(comment_slots(d))
+        ep, box, key = rng.choice(slots)
+        box[key] = gen_long_comment(rng, ascii_only=(ep == 'save_cif(blocks, comment=)' or rng.random() < 0.8))
+        hit.append(i)
+    return hit
+
+
+def comment_class(c):
+    """measured class of a supplied comment (coverage)"""
+    if not c:
+        return None
+    lines = c.split('\n')
+    m = max(len(x) for x in lines)
+    width = ('line<=80' if m <= 80 else 'line 81..2039' if m < 2040 else 'line 2040..2046' if m <= 2046 else
+             'line 2047..2060' if m <= 2060 else 'line 2061..5000' if m <= 5000 else 'line 5001..49999' if m < 50000
+             else 'line>=50000')
+    if len(lines) >= 50:
+        width += ', >=50 lines'
+    return width
+
+
+def _low_with(ep, c):
+    """a small low-level document (two blocks, a chunk and a loop) with comment c at entry point ep"""
+    d = {'kind': 'low', 'comment': '', 'blocks': [
+        {'name': 'b1', 'comment': '', 'schema': ['core'], 'items': [
+            {'type': 'chunk', 'comment': '', 'schema': None, 'as_dict': False, 'pairs': [['a.b', {'s': 'v w'}], ['a.c', {'i': 3}]]},
+            {'type': 'loop', 'comment': '', 'schema': None, 'columns': [['l.a', {'strs': ['p', 'q r']}], ['l.b', {'ints': [1, 2]}]]}]},
+        {'name': 'b2', 'comment': '', 'schema': None, 'items': [
+            {'type': 'chunk', 'comment': '', 'schema': None, 'as_dict': False, 'pairs': [['z', {'s': 'last'}]]}]}]}
+    if ep == 'file':
+        d['comment'] = c
+    elif ep == 'block':
+        d['blocks'][0]['comment'] = c
+    elif ep == 'block2':
+        d['blocks'][1]['comment'] = c
+    elif ep == 'chunk':
+        d['blocks'][0]['items'][0]['comment'] = c
+    elif ep == 'loop':
+        d['blocks'][0]['items'][1]['comment'] = c
+    elif ep == 'chunk-last':
+        d['blocks'][1]['items'][0]['comment'] = c
+    else:
+        raise ValueError(ep)
+    return d
+
+
+def _builder_with(ep, c):
+    """a small builder document with comment c at entry point ep"""
+    calls = [{'c': 'beamline', 'name': 'DREAM', 'facility': 'ESS', 'source': None, 'comment': ''},
+             {'c': 'powder', 'dim': 'tof', 'name': None, 'coord': [hx(1.0), hx(2.5)], 'coord_var': None,
+              'data': [hx(13.6), hx(26.0)], 'data_var': [hx(0.81), hx(1.0)],
+              'unit': 'counts' if ep == 'powder-unit' else 'one', 'comment': ''},
+             {'c': 'calib', 'powers': [0, 1], 'coeffs': [hx(1.2), hx(4.5)], 'var': None, 'comment': ''}]
+    d = {'kind': 'builder', 'name': 'reduced', 'comment': '', 'calls': calls, 'saves': 1, 'override_comment': None}
+    if ep == 'cif':
+        d['comment'] = c
+    elif ep == 'override':
+        d['comment'], d['override_comment'] = 'replaced', c
+    elif ep == 'beamline':
+        calls[0]['comment'] = c
+    elif ep in ('powder', 'powder-unit'):
+        calls[1]['comment'] = c
+    elif ep == 'calib':
+        calls[2]['comment'] = c
+    else:
+        raise ValueError(ep)
+    return d
+
+
+LOW_EPS = ['file', 'block', 'block2', 'chunk', 'loop', 'chunk-last']
+BLD_EPS = ['cif', 'override', 'beamline', 'powder', 'powder-unit', 'calib']
+
+
+def long_comment_probes(rng, widths, every_ep_widths=(), many_lines=(), random_style_widths=()):
+    """(label, doc, description): long comments at every entry point.  `widths`: each width once at a low-level and
+    once at a builder entry point (entry point, style and place among short lines rotate); `every_ep_widths`: at every
+    entry point; `many_lines`: line counts; `random_style_widths`: non-periodic text"""
+    out = []
+    n = 0
+
+    def add(kind, ep, c, desc):
+        d = _low_with(ep, c) if kind == 'low' else _builder_with(ep, c)
+        label = 'comment:many-lines' if desc.startswith('many') else 'comment:long-line'
+        out.append((label, d, f'{ep} comment, {desc}'))
+
+    for w in widths:
+        for kind, eps in (('low', LOW_EPS), ('builder', BLD_EPS)):
+            style, shape = LONG_STYLES[n % 3], COMMENT_SHAPES[(n // 3) % len(COMMENT_SHAPES)]
+            add(kind, eps[n % len(eps)], long_comment(rng, w, style, shape), f'one line of {w} characters ({style}, {shape})')
+            n += 1
+    for w in every_ep_widths:
+        for kind, eps in (('low', LOW_EPS), ('builder', BLD_EPS)):
+            for ep in eps:
+                style, shape = LONG_STYLES[n % 3], COMMENT_SHAPES[(n // 3) % len(COMMENT_SHAPES)]
+                add(kind, ep, long_comment(rng, w, style, shape), f'one line of {w} characters ({style}, {shape})')
+                n += 1
+    for w in random_style_widths:
+        for kind, eps in (('low', LOW_EPS), ('builder', BLD_EPS)):
+            add(kind, eps[n % len(eps)], long_comment(rng, w, 'random', COMMENT_SHAPES[n % len(COMMENT_SHAPES)]),
+                f'one line of {w} characters (random words)')
+            n += 1
+    for k in many_lines:
+        for kind, eps in (('low', LOW_EPS), ('builder', BLD_EPS)):
+            add(kind, eps[n % len(eps)], many_line_comment(rng, k, numbered=k <= 300), f'many lines ({k})')
+            n += 1
+    return out
 
 
 TAG_CATS = ['cell', 'audit', 'diffrn_source', 'pd_meas', 'pd_proc', 'x', 'my-cat', 'exptl_crystal']
@@ -801,6 +1076,8 @@ def failure_key(doc, why, failing_classes, label=None):
     base = why.split(':')[0]
     if base == 'text-differs-from-model':
         return 'model:text-differs-from-model'
+    if label and label.startswith('comment:') and base != 'non-ascii-output':
+        return f'{label}:{base}'        # systematic comment probes: everything but the comment is benign
     if base == 'non-ascii-output':
         return 'ascii:' + ('save_cif-comment-not-escaped' if any(ord(c) > 126 for c in doc.get('comment', '') or '')
                            and doc['kind'] == 'low' else 'output')
@@ -874,12 +1151,22 @@ def correspondence(ctx):
     quick = ctx.tier == 'quick'
     n_low, n_build, n_fork = (380, 170, 55) if quick else (7000, 2500, 400)
     sysd = systematic()
+    # long comments (own random streams: the other documents of a seed do not depend on them)
+    crng = random.Random(ctx.seed * 31 + 1408)
+    sysd += long_comment_probes(crng, CIF_WIDTHS + LONG_WIDTHS + ([50000, 50000] if quick else []),
+                                every_ep_widths=[5000] if quick else [5000, 50000],
+                                many_lines=[100, 300, 3000] if quick else [100, 300, 1000, 3000, 10000],
+                                random_style_widths=[2047, 2050, 5000] if quick else CIF_WIDTHS + [5000, 50000])
     low = [gen_low(rng, 50 if i % 10 == 0 else 8) for i in range(n_low)]
     bld = [gen_builder(rng) for _ in range(n_build)]
     frng = random.Random(ctx.seed * 7919 + 14)
     forks = systematic_forks() + [gen_fork(frng, shape=FORK_SHAPES[i % len(FORK_SHAPES)],
                                            kind=CALL_KINDS[(i // len(FORK_SHAPES)) % len(CALL_KINDS)])
                                   for i in range(n_fork)]
+    n_sys_forks = len(systematic_forks())
+    injected = {}
+    for part, name in ((low, 'low'), (bld, 'builder'), (forks[n_sys_forks:], 'fork')):
+        injected[name] = len(inject_long_comments(part, crng, 0.07))
     docs = [d for _, d, _ in sysd] + low + bld + forks
     labels = [k for k, _, _ in sysd] + [None] * (len(low) + len(bld) + len(forks))
     res = ctx.run_impl('c14_impl.py', {'docs': docs, 'units': UNITS, 'facilities': FACILITIES})
@@ -972,6 +1259,13 @@ def correspondence(ctx):
     for i in fork_idx:
         for ft in fork_profile(docs[i]):
             fork_feats[ft] = fork_feats.get(ft, 0) + 1
+    comment_eps, comment_classes = {}, {}
+    for d in docs:
+        for ep, box, key in comment_slots(d):
+            cl = comment_class(box.get(key))
+            if cl:
+                comment_eps[ep] = comment_eps.get(ep, 0) + 1
+                comment_classes[cl] = comment_classes.get(cl, 0) + 1
     samples = []
     for i in (0, 1, len(sysd) + 1, len(sysd) + len(low) + 1, len(docs) - 1):
         if i < len(docs):
@@ -991,11 +1285,20 @@ def correspondence(ctx):
                 'the content supplied along that builder\'s own chain); strings drawn from a grammar biased to '
                 'leading _ # $ ; [ ] quotes, TAB/LF, quote+blank, CIF keywords, ? ., empty, non-ASCII; non-trivial = the package '
                 'wrote a file (not an exception); distinct = distinct documents / (history, save) pairs; plus the boundary corpus '
-                'for the quoting rule',
+                'for the quoting rule; LONG COMMENTS: at every entry point (save_cif(comment=), Block, Chunk, Loop, CIF(comment=), '
+                'save_cif(builder, comment=), with_beamline / with_reduced_powder_data (with and without unit line) / '
+                'with_powder_calibration comment=, and through random injection also the CIF.comment setter and every save of a '
+                'fork history) one line of every length 2040..2060 (CIF 1.1 limit 2048), around 80/132/256/1024/4096, 5000 and '
+                '50000 characters (without blanks, words with blanks/tabs, mixed stretches, non-periodic random words; alone, '
+                'first, in the middle, last, with trailing newline, two long lines; text made of CIF tags/keywords), and comments '
+                'of 100..3000 lines; 7% of the random documents get such a comment in one random slot',
         'samples': samples[:5],
         'documents': {'systematic': len(sysd), 'low_level': len(low), 'builder': len(bld), 'fork_histories': len(forks),
                       'fork_saves': len(fork_cases)},
         'fork_history_features': fork_feats,
+        'comments_by_entry_point': comment_eps,
+        'comments_by_longest_line': comment_classes,
+        'documents_with_injected_long_comment': injected,
         'fork_shapes': {sh: sum(1 for f in forks if f.get('shape') == sh) for sh in sorted({f.get('shape') for f in forks})},
         'string_values_by_class': by_class,
         'string_values': len(strings),
@@ -1014,21 +1317,32 @@ def _domain_stats(ctx, hdr, n_low, n_bld, shard):
     mods = [m for m in mods_low + mods_bld if os.path.exists(os.path.join(ctx.build, m + '.vo'))]
     if not mods:
         return {}
-    body = hdr + ''.join(f'From Run Require {m}.\n' for m in mods)
-    low_sum = ' + '.join(f'length (filter (in_domain core Pimpl) {m}.cases)' for m in mods if m.startswith('low')) or '0'
-    bld_sum = ' + '.join(f'length (filter (fun b => in_domain core Pimpl (build core pd version spallation b)) {m}.cases)'
-                         for m in mods if m.startswith('bld')) or '0'
-    body += (f'Eval vm_compute in (("low", ({low_sum})%nat), ("builder", ({bld_sum})%nat), ("fixed-rule", Tie.is_fixed), '
-             f'("current-rule", Tie.is_current)).\n')
-    with open(os.path.join(ctx.build, 'Stats.v'), 'w') as f:
-        f.write(body)
-    rc, out = ctx.coqc('Stats.v', timeout=600)
-    m = re.search(r'"low",\s*(\d+)(?:%nat)?,\s*\("builder",\s*(\d+)(?:%nat)?\),\s*\("fixed-rule",\s*(\w+)\),\s*\("current-rule",\s*(\w+)\)', out)
-    if rc != 0 or not m:
-        ctx.note('domain statistics could not be computed: ' + out[-300:])
+
+    def one(m):
+        # one small file per shard module, compiled concurrently (each re-parses the texts of its shard)
+        term = (f'length (filter (in_domain core Pimpl) {m}.cases)' if m.startswith('low') else
+                f'length (filter (fun b => in_domain core Pimpl (build core pd version spallation b)) {m}.cases)')
+        with open(os.path.join(ctx.build, f'Stats_{m}.v'), 'w') as f:
+            f.write(hdr + f'From Run Require {m}.\n' +
+                    f'Eval vm_compute in (("count", ({term})%nat), ("fixed-rule", Tie.is_fixed), '
+                    f'("current-rule", Tie.is_current)).\n')
+        rc, out = ctx.coqc(f'Stats_{m}.v', timeout=600)
+        mm = re.search(r'"count",\s*(\d+)(?:%nat)?,\s*\("fixed-rule",\s*(\w+)\),\s*\("current-rule",\s*(\w+)\)', out)
+        if rc != 0 or not mm:
+            return None, out[-300:]
+        return (int(mm.group(1)), mm.group(2), mm.group(3)), ''
+    import concurrent.futures
+    with concurrent.futures.ThreadPoolExecutor(max_workers=12) as ex:
+        got = list(ex.map(one, mods))
+    bad = [msg for r, msg in got if r is None]
+    if bad:
+        ctx.note('domain statistics could not be computed: ' + bad[0])
         return {}
-    return {'low_level_in_domain': int(m.group(1)), 'builder_in_domain': int(m.group(2)),
-            'rule': 'fixed' if m.group(3) == 'true' else 'current' if m.group(4) == 'true' else 'unrecognised'}
+    low_n = sum(r[0] for (r, _), m in zip(got, mods) if m.startswith('low'))
+    bld_n = sum(r[0] for (r, _), m in zip(got, mods) if m.startswith('bld'))
+    fixed, current = got[0][0][1], got[0][0][2]
+    return {'low_level_in_domain': low_n, 'builder_in_domain': bld_n,
+            'rule': 'fixed' if fixed == 'true' else 'current' if current == 'true' else 'unrecognised'}
 
 
 # ------------------------------------------------------------------------------------------- search / replay
@@ -1037,10 +1351,76 @@ def search(ctx, broken):
     the rule is not recognised).  The correspondence has already evaluated the property statement itself on the real
     package (write, then parse with the independent parser, inside Coq); its failures are the concrete inputs.  If it
     found none, replay the witnesses of the refutation lemmas and further single-value probes on the implementation."""
-    found = [v for v in ctx.violations if v.found_input]
+    try:                                  # a KNOWN finding is not the failing input of a broken obligation
+        import vlib
+        known = {k for (p, k) in vlib.load_known() if p == ID}
+    except Exception:
+        known = set()
+    found = [v for v in ctx.violations if v.found_input and v.key not in known]
     if found:
         return [v.replay for v in found]
     rng = random.Random(ctx.seed + 7)
+    stages = [_search_values, _search_comments]
+    if any('comment' in str(b).lower() for b in broken):
+        stages.reverse()
+    for stage in stages:
+        out = stage(ctx, rng)
+        if out:
+            return out
+    return _search_builder(ctx, rng)
+
+
+def _search_comments(ctx, rng):
+    """comments: sweep of the line length (every power of two 32..65536 and its neighbours, every length 2040..2060, the
+    other limits a writer may know of, 5000, 50000; with and without blanks; every place among short lines) and of the
+    number of lines (2..4096, 10000) at every entry point that takes a comment, plus random documents in which one
+    random comment slot holds a long comment.  Property statement per document: the text parses (independent parser,
+    inside Coq) to exactly the supplied content — nothing of a comment is read as data."""
+    widths = sorted({2 ** k + d for k in range(5, 17) for d in (-1, 0, 1)} | set(CIF_WIDTHS) | set(LONG_WIDTHS)
+                    | {5000, 50000, 3 * 2046, 2 * 2048 + 1})
+    probes = long_comment_probes(rng, widths, every_ep_widths=[2047, 5000],
+                                 many_lines=[2 ** k for k in range(1, 13)] + [3000, 10000],
+                                 random_style_widths=[81, 133, 1025, 2047, 2049, 4097, 5000])
+    n_rand = 60 if ctx.tier == 'quick' else 400
+    rnd = [gen_low(rng, 8) if i % 2 else gen_builder(rng) for i in range(n_rand)]
+    inject_long_comments(rnd, rng, 1.0)
+    docs = [d for _, d, _ in probes] + rnd
+    labels = [k for k, _, _ in probes] + [None] * len(rnd)
+    descr = [t for _, _, t in probes] + [''] * len(rnd)
+    res = ctx.run_impl('c14_impl.py', {'docs': docs, 'units': UNITS, 'facilities': FACILITIES})
+    hdr = header(res, tie=False)
+    low_idx = [i for i, d in enumerate(docs) if d['kind'] == 'low']
+    bld_idx = [i for i, d in enumerate(docs) if d['kind'] == 'builder']
+    (f_low, e1), (f_bld, e2) = _par([
+        lambda: ctx.coq_eval_shards(hdr, [clow(docs[i], res['docs'][i], res['core'], res['pd']) for i in low_idx],
+                                    lambda k: 'Eval vm_compute in (report (map (check_case Rfixed core) cases)).\n',
+                                    shard=30, prefix='searchc_low'),
+        lambda: ctx.coq_eval_shards(hdr, [cbuilder(docs[i], res['docs'][i], res['unit_str']) for i in bld_idx],
+                                    lambda k: 'Eval vm_compute in (report (map (check_builder Rfixed core pd version '
+                                              'spallation) cases)).\n', shard=30, prefix='searchc_bld')])
+    if e1 or e2:
+        ctx.note('search (comments): shards did not evaluate: ' + str(e1 + e2)[:300])
+    fails = {low_idx[i]: w for i, w in f_low.items()}
+    fails.update({bld_idx[i]: w for i, w in f_bld.items()})
+    out = []
+    for i, why in sorted(fails.items()):
+        if why.startswith('text-differs-from-model'):
+            continue
+        key = failure_key(docs[i], why, set(), labels[i])
+        if labels[i] is None and key.split(':')[0] in ('low', 'builder'):
+            key = 'comment:long:' + why.split(':')[0]
+        r = res['docs'][i]
+        ctx.violation(key, f'{key}: the text written by the real package '
+                      + ('is not read back by the independent CIF 1.1 parser as the supplied content' if 'text' in r
+                         else f'could not be produced ({r.get("error")}: {r.get("msg", "")[:120]})')
+                      + f' [{why}]' + (f' ({descr[i]})' if descr[i] else ''),
+                      {'doc': docs[i], 'reason': why, 'written': r})
+        out.append(docs[i])
+    return out
+
+
+def _search_values(ctx, rng):
+    """single string values: the witnesses of the refutation lemmas and random strings, alone as a pair and in a loop"""
     cands = ['_tag', '#c', '$x', '[a]', ']a', ';abc', 'a\tb', 'loop_', 'data_x', 'save_x', 'global_', 'stop_', 'a\n;b']
     cands += [gen_string(rng) for _ in range(300)]
     docs = [single_pair(s) for s in cands] + [loop_first(s) for s in cands]
@@ -1059,14 +1439,18 @@ def search(ctx, broken):
         ctx.violation(key, f'{key}: value {s!r} written by the real package is not read back [{why}]',
                       {'doc': docs[i], 'reason': why, 'written': res['docs'][i]})
         out.append(docs[i])
-    if out:
-        return out
+    return out
+
+
+def _search_builder(ctx, rng):
     # builder level: more call sequences and more histories over builders with common ancestors (other seed, every
     # shape x every combinator), the property statement evaluated per save: parse back = that builder's own chain
     n_b, n_f = (150, 200) if ctx.tier == 'quick' else (600, 1500)
     blds = [gen_builder(rng) for _ in range(n_b)]
     forks = systematic_forks() + [gen_fork(rng, shape=FORK_SHAPES[i % len(FORK_SHAPES)],
                                            kind=CALL_KINDS[(i // len(FORK_SHAPES)) % len(CALL_KINDS)]) for i in range(n_f)]
+    inject_long_comments(blds, rng, 0.15)
+    inject_long_comments(forks[len(systematic_forks()):], rng, 0.15)
     res = ctx.run_impl('c14_impl.py', {'docs': blds + forks, 'units': UNITS, 'facilities': FACILITIES})
     cases = [(d, None, d, r) for d, r in zip(blds, res['docs'][:len(blds)])]
     for d, r in zip(forks, res['docs'][len(blds):]):
